@@ -578,7 +578,81 @@ def r6(ctx, R):
         if need <= knames:
             R.ok("C08.R6", f.short, k, loc(f, st), f"entry computed from {sorted(need)}; all in the key")
         elif invalid:
-            R.undecided("C08.R6", f.short, k, loc(f, st), f"key lacks {sorted(need - knames)} but the cache is invalidated somewhere; completeness of invalidation not decided")
+            # the key lacks part of what the entry depends on: then every place that changes the
+            # table the loop draws from must invalidate the cache (same key popped next to a pop of
+            # the table; cleared or re-created next to a wholesale replacement of the table)
+            table = None
+            p = ctx.m.parent.get(st)
+            while p is not None and not isinstance(p, ast.FunctionDef):
+                if isinstance(p, ast.For) and isinstance(p.iter, ast.Call) and isinstance(p.iter.func, ast.Attribute) and isinstance(p.iter.func.value, ast.Name):
+                    table = p.iter.func.value.id
+                p = ctx.m.parent.get(p)
+            problems, undec, n_ok = [], [], 0
+            if table is None:
+                undec.append((st, "the table the cached entries are computed from was not identified"))
+            else:
+                F = ctx.facts(f, interproc=False)
+
+                def siblings(x):
+                    par = ctx.m.parent.get(x)
+                    for fld in ("body", "orelse", "finalbody"):
+                        if x in getattr(par, fld, []):
+                            return getattr(par, fld)
+                    return [x]
+
+                def invalidated(x, keytxt):
+                    for sb in siblings(x):
+                        for c in calls_in(sb):
+                            if isinstance(c.func, ast.Attribute) and unparse(c.func.value) == cache:
+                                if c.func.attr == "clear":
+                                    return True
+                                if c.func.attr == "pop" and keytxt is not None and c.args and unparse(c.args[0]) == keytxt:
+                                    return True
+                        if isinstance(sb, ast.Assign) and any(isinstance(t, ast.Name) and t.id == cache for t in sb.targets) and isinstance(sb.value, ast.Dict) and not sb.value.keys:
+                            return True
+                    return False
+
+                first = True
+                for x in ctx.m.walk_own(f.node):
+                    if isinstance(x, ast.Expr) and isinstance(x.value, ast.Call) and isinstance(x.value.func, ast.Attribute) and unparse(x.value.func.value) == table and x.value.func.attr in ("pop", "popitem", "clear", "update", "setdefault"):
+                        c = x.value
+                        kt = unparse(c.args[0]) if c.func.attr == "pop" and c.args else None
+                        if c.func.attr == "pop" and invalidated(x, kt) or invalidated(x, None):
+                            n_ok += 1
+                        elif c.func.attr in ("pop", "clear", "popitem"):
+                            problems.append((x, f"`{unparse(c)[:60]}` removes a definition but the cache keeps the entry computed from it"))
+                        else:
+                            undec.append((x, f"`{unparse(c)[:60]}`"))
+                    elif isinstance(x, ast.Delete) and any(isinstance(t, ast.Subscript) and unparse(t.value) == table for t in x.targets):
+                        kt = next(unparse(t.slice) for t in x.targets if isinstance(t, ast.Subscript) and unparse(t.value) == table)
+                        if invalidated(x, kt):
+                            n_ok += 1
+                        else:
+                            problems.append((x, f"`{unparse(x)[:60]}` removes a definition but the cache keeps the entry computed from it"))
+                    elif isinstance(x, ast.Assign):
+                        names = [n_ for t in x.targets for n_ in ast.walk(t) if isinstance(n_, ast.Name) and isinstance(n_.ctx, ast.Store) and n_.id == table]
+                        subs = [t for t in x.targets if isinstance(t, ast.Subscript) and unparse(t.value) == table]
+                        if names:
+                            if first and isinstance(ctx.m.parent.get(x), ast.FunctionDef):
+                                first = False  # the table's initialisation
+                                continue
+                            if invalidated(x, None):
+                                n_ok += 1
+                            else:
+                                problems.append((x, f"`{unparse(x)[:70]}` replaces the whole table (definitions made or removed by the included file) but the cache keeps its entries"))
+                        for t in subs:
+                            facts = F.at(x) or set()
+                            kt = unparse(t.slice)
+                            if ("notin", kt, table) in facts or invalidated(x, kt):
+                                n_ok += 1
+                            else:
+                                undec.append((x, f"`{unparse(t)} = ...` may overwrite an existing definition"))
+            for x, why in problems:
+                R.violation("C08.R6", f.short, k + " :: " + key(f, x)[:60], loc(f, x), f"the cached entry is computed from {sorted(need)} but keyed by {sorted(knames)} only, and {why}: later uses of the name are expanded with the old definition (or fail on a pattern/body of the wrong kind)")
+            for x, why in undec:
+                R.undecided("C08.R6", f.short, k + " :: " + key(f, x)[:60], loc(f, x), f"key lacks {sorted(need - knames)}; invalidation at {why} not decided")
+            if not problems and not undec:
+                R.ok("C08.R6", f.short, k, loc(f, st), f"key lacks {sorted(need - knames)} but the cache is invalidated at each of the {n_ok} places that change `{table}`")
         else:
             R.violation("C08.R6", f.short, k, loc(f, st), f"the cached entry is computed from {sorted(need)} but keyed by {sorted(knames)} only: after #undef/#define of the same name with another body, uses are still replaced by the old body")
 
